@@ -249,7 +249,7 @@ TRANSPARENT_OK = {
 def paths(v, limit: int = 64, opaque_leaf: bool = False, with_conds: bool = False):
     """flat part sequences of every alternative path of a skeleton (bounded); with_conds=True returns
     (flat, conditions) pairs where conditions are the (possibly negated) branch tests taken on that path"""
-    from ..symex import Rep, JoinP, One, RepI, CondI, Opaque, negate
+    from ..symex import Rep, JoinP, One, RepI, CondI, Opaque, RaiseV, negate
 
     def cross(acc, nxt):
         if len(nxt) == 1:
@@ -303,6 +303,8 @@ def paths(v, limit: int = 64, opaque_leaf: bool = False, with_conds: bool = Fals
             return acc + [([], ())]
         if isinstance(x, Const) and isinstance(x.value, str):
             return [([Lit(x.value)], ())]
+        if isinstance(x, RaiseV):
+            return []          # this alternative raises: it renders nothing
         return [([Lit("?")], ())]
     out = rec(v)
     return out if with_conds else [f for f, _ in out]
@@ -338,7 +340,9 @@ def slot_context(sk, slot_attr: str):
                 after = flat[i + 1] if i + 1 < len(flat) else None
                 bt = before.text if isinstance(before, Lit) else ("{}" if before is not None else "")
                 at = after.text if isinstance(after, Lit) else ("{}" if after is not None else "")
-                wrapped = bt.endswith("(") and at.startswith(")")
+                # delimited: its own parentheses, or an argument position of a call (`MOD(<l>,<r>)`): the comma and the
+                # call's brackets separate complete expressions whatever operators they contain
+                wrapped = bt.rstrip().endswith(("(", ",")) and at.lstrip().startswith((")", ","))
                 sub = p.ctx.fields["subcriterion"] if isinstance(p.ctx, CtxV) else None
                 if res is None:
                     res = (wrapped, sub, bt, at)
